@@ -360,7 +360,11 @@ ChildPlan World::OnSpawn(Kernel& kk, const std::string& cmd, bool console) {
   ChildStep eff;
   eff.kind = ChildStep::kEffect;
   eff.at_ns = dur;
-  eff.fn = [self, scp, outs, sv, snap, rsp_content, rs, hidden, status, fail_mode, myseq, restat](Kernel& k2, Child& c) {
+  // (only in -j1 builds: ninja closes the log when it STARTS a generator command; with other
+  // commands finishing meanwhile the log is open again and a replacement loses their records -
+  // a limit of the design, not of the implementation)
+  bool restat_log = s.generator && !s.regen && prof->generator_restats_log && r.plan.j == 1 && !r.plan.jobserver && !r.plan.editor && tape->Choice(st_stream, 3) == 1;   // (`-t restat` hides an edit made while a command ran: no editor then)
+  eff.fn = [self, scp, outs, sv, snap, rsp_content, rs, hidden, status, fail_mode, myseq, restat, restat_log](Kernel& k2, Child& c) {
     bool partial = c.killed || (status != 0 && fail_mode == 2);
     bool none = status != 0 && fail_mode == 0 && !c.killed;
     if (none) return;
@@ -416,6 +420,28 @@ ChildPlan World::OnSpawn(Kernel& kk, const std::string& cmd, bool console) {
       k2.WriteFile(sv.depfile, DepfileEscape(sv.outs[0]) + ": \n");
     }
     if (status == 0 && !partial) self->reported_hidden[sv.id] = hidden;
+    // a generator may end with `ninja -t restat` (CMake's regeneration does): the build log is
+    // replaced by a copy whose recorded mtimes are the outputs' current ones - which is why
+    // ninja closes its log before it starts a generator command
+    if (restat_log && status == 0 && !partial) {
+      std::string lp = scp->LogDir() + ".ninja_log", b;
+      if (k2.ReadFile(lp, &b)) {
+        BuildLogFold f = FoldBuildLog(b, true);
+        if (f.valid_header && !b.empty() && b.back() == '\n') {
+          std::string nb = "# ninja log v" + std::to_string(f.version) + "\n";
+          for (auto& kv : f.last) {
+            char l1[96], l2[40];
+            snprintf(l1, sizeof l1, "%d\t%d\t%lld\t", kv.second.start, kv.second.end, (long long)(k2.Exists(kv.first) ? k2.Mtime(kv.first) : 0));
+            snprintf(l2, sizeof l2, "\t%llx\n", (unsigned long long)kv.second.hash);
+            nb += std::string(l1) + kv.first + l2;
+          }
+          k2.ReplaceFile(lp, nb);
+          k2.Trace(Ev::kChildEffect, c.pid, sv.id, lp);
+          self->stats->n["log_restated_by_generator"]++;
+          self->log_restated = true;
+        }
+      }
+    }
   };
   plan.steps.push_back(eff);
   uint32_t shape = tape->Choice(st_stream, 6);
@@ -481,6 +507,7 @@ static uint64_t FsHash(const std::string& s) { return Hash64(s, 7); }
 InvRecord World::RunInvocation(const InvPlan& plan) {
   InvRecord r;
   r.plan = plan;
+  log_restated = false;
   std::vector<std::string>& a = r.argv;
   a.push_back("ninja");
   char buf[64];
@@ -614,6 +641,7 @@ InvRecord World::RunInvocation(const InvPlan& plan) {
   }
   hb = k.ReadFile(sc.LogDir() + ".ninja_log", &lb); hd = k.ReadFile(sc.LogDir() + ".ninja_deps", &ld);
   r.log_after = FoldBuildLog(hb ? lb : "", hb);
+  r.log_restated = log_restated;
   r.deps_after = FoldDepsLog(hd ? ld : "", hd);
 
   static const char* kRealFaults[] = {"crash", "torn_write", "io_error_read", "io_error_write", "io_error_stat",
